@@ -77,8 +77,8 @@ def _write_files(prefix, files):
     import importlib
     import sys
     root = _root()
+    os.makedirs(root, exist_ok=True)
     if root not in sys.path:
-        os.makedirs(root, exist_ok=True)
         sys.path.insert(0, root)
         import atexit
         import shutil
@@ -98,6 +98,10 @@ def _remove_files(prefix):
     import shutil
     import sys
     shutil.rmtree(os.path.join(_root(), prefix), ignore_errors=True)
+    try:
+        os.rmdir(_root())          # workers are killed, not exited: leave nothing behind
+    except OSError:
+        pass
     for k in [k for k in sys.modules if k == prefix or k.startswith(prefix + ".")]:
         del sys.modules[k]
 
